@@ -70,8 +70,20 @@ def sh(cmd, cwd=None, env=None, timeout=3600):
     e["CARGO_NET_OFFLINE"] = "true"
     if env:
         e.update(env)
-    p = subprocess.run(cmd, cwd=cwd, env=e, shell=True, stdout=subprocess.PIPE, stderr=subprocess.STDOUT, timeout=timeout)
-    return p.returncode, p.stdout.decode(errors="replace")
+    # own process group, so that a hanging mutant (test binary, simulator) can
+    # be killed together with the shell that started it
+    p = subprocess.Popen(cmd, cwd=cwd, env=e, shell=True, stdout=subprocess.PIPE, stderr=subprocess.STDOUT, start_new_session=True)
+    try:
+        out, _ = p.communicate(timeout=timeout)
+    except subprocess.TimeoutExpired:
+        import signal
+        try:
+            os.killpg(p.pid, signal.SIGKILL)
+        except ProcessLookupError:
+            pass
+        p.communicate()
+        raise
+    return p.returncode, out.decode(errors="replace")
 
 
 class Worker(threading.Thread):
@@ -107,7 +119,7 @@ class Worker(threading.Thread):
             open(path, "w").write("\n".join(lines))
             rec = {"group": group, "file": file, "line": ln, "what": what, "old": old.strip(), "new": new.strip()}
             try:
-                rc, out = sh("cargo test --offline --lib 2>&1 | tail -5", cwd=self.repo, timeout=900)
+                rc, out = sh("cargo test --offline --lib 2>&1 | tail -5", cwd=self.repo, timeout=240)
                 m = re.search(r"test result: (\w+)\. (\d+) passed; (\d+) failed", out)
                 if not m:
                     rec["status"] = "does-not-compile"
@@ -133,7 +145,7 @@ class Worker(threading.Thread):
                             rec["detail"] = (he.group(1) if he else out[-300:])[:300]
                             break
             except subprocess.TimeoutExpired:
-                rec["status"] = "timeout"
+                rec["status"] = rec.get("status", "") + "timeout" if rec.get("status") == "SURVIVED" else "hangs-in-unit-tests"
             finally:
                 open(path, "w").write(src)
             with self.lock:
